@@ -82,7 +82,12 @@ func (e *ATExecutor) ExecWithNamedValue(ctx context.Context, execCtx *types.Exec
 		case types.SQLTypeInsertOnDuplicateUpdate:
 			executor = NewInsertOnUpdateExecutor(queryParser, execCtx, e.hooks)
 		case types.SQLTypeMulti:
-			executor = NewMultiExecutor(queryParser, execCtx, e.hooks)
+			if queryParser.AllPlainReads() {
+				// several queries in one text: nothing to record, the application walks their result sets
+				executor = NewPlainExecutor(queryParser, execCtx)
+			} else {
+				executor = NewMultiExecutor(queryParser, execCtx, e.hooks)
+			}
 		default:
 			executor = NewPlainExecutor(queryParser, execCtx)
 		}
